@@ -69,3 +69,29 @@ Fixpoint slots_eqb (a b : list slotdesc) : bool :=
 Definition revrule_ok (r : revrule) (expected : list slotdesc) : bool :=
   r_sets_p r && r_adj_x0_zero r && r_adj_rhs_cotangent r && r_adj_op_hessian_at_solution r && r_adj_precond r
   && r_adj_radius_inf r && r_lam_result0 r && r_guess_cotangent_zero r && slots_eqb (r_slots r) expected.
+
+(* --- vocabulary for the semantics of the reverse rules (values regenerated from the AST into gen/Refs_NonlinearSolve.v) --- *)
+(* how a reverse rule re-establishes objective.p before anything is evaluated on the objective *)
+Inductive restore_kind := RestoreSaved | RestoreSlot (k : nat) | RestoreNone.
+
+(* Objective.vec_jacobian_p<k>(self, x, vp) and the jitted closure it calls:
+     self.<closure> = jit(lambda x, p, vx: vjp(lambda q: self.grad_x(x, param_index_update(p, <update_slot>, q)), p[<primal_slot>])[1](vx)) *)
+Record vjpclosure := {
+  vc_method : string;
+  vc_method_slot : nat;                 (* the <k> of the method name *)
+  vc_closure : string;                  (* attribute of self the method calls *)
+  vc_closure_defined : bool;            (* assigned in __init__ as jit(lambda x, p, vx: ...) and nowhere else in the class *)
+  vc_args_x_selfp_v : bool;             (* method body is `return self.<closure>(x, self.p, vp)` *)
+  vc_is_vjp : bool;                     (* closure body is vjp(<fun>, <primal>)[1](<cot>) *)
+  vc_fun_is_grad_x_of_update : bool;    (* <fun> is lambda q: self.grad_x(x, param_index_update(p, <update_slot>, q)) *)
+  vc_update_slot : nat;
+  vc_primal_is_p_slot : bool;           (* <primal> is p[<primal_slot>] *)
+  vc_primal_slot : nat;
+  vc_cot_is_third : bool }.             (* <cot> is the closure's third parameter *)
+
+Definition closure_ok (c : vjpclosure) : bool :=
+  vc_closure_defined c && vc_args_x_selfp_v c && vc_is_vjp c && vc_fun_is_grad_x_of_update c && vc_primal_is_p_slot c && vc_cot_is_third c
+  && Nat.eqb (vc_update_slot c) (vc_method_slot c) && Nat.eqb (vc_primal_slot c) (vc_method_slot c).
+
+Fixpoint find_closure (cls : list vjpclosure) (k : nat) : option vjpclosure :=
+  match cls with [] => None | c :: r => if Nat.eqb (vc_method_slot c) k then Some c else find_closure r k end.
